@@ -109,7 +109,7 @@ structure Decl where
 deriving Repr
 
 structure Oracle where
-  cfg : Cfg := ⟨false, 512, 3145728, 300000000, true⟩
+  cfg : Cfg := { attach := false, maxChunks := 512, maxBytes := 3145728, keepAlive := 300000000, acl := true }
   decls : List Decl := []
   conns : List RConn := []
   monotone : Bool := true
